@@ -284,6 +284,21 @@ func check(c Case) hx.Verdict {
 			if g3 == nil || !model.Equal(g3, model.NewSeq(a, b)) {
 				return hx.Bad("", "overwriting the merge result changed an operand (shared nodes): `%s` gives %v, expected %s (err %q)", e3, js(g3), model.NewSeq(a, b).JSON(), o3.Err)
 			}
+			// the same with operands that are documents themselves (no parent node) and with a variable bound to one
+			in2 := a.JSON() + "\n" + b.JSON() + "\n"
+			for _, e4 := range []string{
+				"(select(di == 0) " + op + " select(di == 1)) as $m | select(di == 0)",
+				"select(di == 0) as $d | ($d " + op + " select(di == 1)) as $m | $d",
+				"(select(di == 0) " + op + " select(di == 1)) as $m | ($m | .. |= \"X\") as $junk | select(di == 0)",
+			} {
+				g4, o4 := one(e4, in2, true)
+				if v := fail(o4, e4, in2); v != nil {
+					return *v
+				}
+				if g4 == nil || !model.Equal(g4, a) {
+					return hx.Bad("", "a document used as the left operand of a merge changed: `%s` gives %v, expected %s (err %q)", e4, js(g4), a.JSON(), o4.Err)
+				}
+			}
 			// identities (no flags that make a*a differ by definition)
 			if !c.Flags.Plus {
 				for _, id := range []struct{ e, what string }{{".a " + op + " {}", "a * {} == a"}, {"{} " + op + " .a", "{} * a == a"}, {".a " + op + " .a", "a * a == a"}} {
